@@ -27,12 +27,12 @@ consequence of "a grace period that started after `r` has completed".
   passes the tail;
 * `false` — the dequeue before that commit, which never looks at `q.tail`.  `q.tail` can then keep
   pointing to a node `q.head` has passed; one grace period after its removal the node is freed while
-  still reachable through `q.tail`: `Neg/C12.lean` exhibits the reachable use-after-free
+  still reachable through `q.tail`: `Lfq/Neg.lean` exhibits the reachable use-after-free
   (confirmed on the real code by `harness/scen/lfq.c --mode uaf-node|uaf-dummy`).
 `Cfg.destroyWalk` selects the destroy text: `true` — the current code (commit 928caa3): walk the chain
 from `q.head`, `-EPERM` iff some node is not a dummy, else free every dummy; `false` — the older
 test `head->dummy && head->next == NULL`, which answers `-EPERM` on an empty queue whose chain holds
-two dummies (`Neg/C12.lean`, `harness/scen/lfq.c --mode two-dummies`).
+two dummies (`Lfq/Neg.lean`, `harness/scen/lfq.c --mode two-dummies`).
 All theorems of `Props/C12.lean` are about `helpTail = true`, `destroyWalk = true`.
 -/
 namespace UrcuVerif.Lfq
@@ -284,6 +284,24 @@ def step (c : Cfg) (s : State) (t : Nat) : Label → Option (State × Out)
 inductive Reach (c : Cfg) : State → Prop
   | init : Reach c init
   | step {s s' t l o} : Reach c s → step c s t l = some (s', o) → Reach c s'
+
+/-- replay a schedule (list of (thread, label)); `none` if some step is not enabled -/
+def run (c : Cfg) : State → List (Nat × Label) → Option State
+  | s, [] => some s
+  | s, (t, l) :: r => match step c s t l with
+    | some (s', _) => run c s' r
+    | none => none
+
+theorem run_reach {c : Cfg} {s s' : State} {ls : List (Nat × Label)} (r : Reach c s) (h : run c s ls = some s') :
+    Reach c s' := by
+  induction ls generalizing s with
+  | nil => simp only [run, Option.some.injEq] at h; exact h ▸ r
+  | cons a ls ih =>
+    obtain ⟨t, l⟩ := a
+    simp only [run] at h
+    split at h
+    · next s1 o e => exact ih (Reach.step r e) h
+    · simp at h
 
 /-- the abstract FIFO: user nodes reachable from `q.head` -/
 def abs (s : State) : List Nat := s.chain.filter (fun p => !s.isDummy p)
